@@ -6,6 +6,9 @@
                                     demonstration fails with it and passes without it
   seedtool.py detect <dir> [...]    apply the patch to /repo, run the quick check of the targeted
                                     property (and any extra ones named in meta.json "also"), undo it
+  seedtool.py pdetect [--all] [--workers=N] <dir> [...]
+                                    the same detection in scratch copies (worktree of /repo + copy of /verif whose
+                                    harness points at it), N seeds in parallel; --all runs every property's check
   seedtool.py table                 print the detection table from the recorded results
 
 <dir> is /verif/seeded/<name>/ holding patch.diff, demo.rs, meta.json.  Results are written back
@@ -115,6 +118,83 @@ def detect(d, extra_props=None, tier="quick"):
     return det
 
 
+def _worker_dir(w):
+    return "/tmp/stunmon-seed-w%d" % w
+
+
+def pdetect_one(w, d, props, tier):
+    """Detection in a scratch copy (parallel-safe): worktree of /repo with the patch applied + a copy
+    of /verif whose harness path dependencies point at that worktree.  The registered MANIFEST
+    commands never use this indirection; it only speeds up the seeded-change matrix."""
+    wd = _worker_dir(w)
+    repo_w, verif_w = os.path.join(wd, "repo"), os.path.join(wd, "verif")
+    os.makedirs(wd, exist_ok=True)
+    if not os.path.isdir(repo_w):
+        rc, out = sh(["git", "-C", REPO, "worktree", "add", "-q", "--detach", repo_w, "HEAD"])
+        if rc != 0:
+            return {"error": out[-300:]}
+    sh(["git", "-C", repo_w, "checkout", "-q", "--detach", subprocess.run(["git", "-C", REPO, "rev-parse", "HEAD"], stdout=subprocess.PIPE, text=True).stdout.strip()])
+    sh(["git", "-C", repo_w, "checkout", "--", "."])
+    sh(["rsync", "-a", "--delete", "--exclude", ".git", "--exclude", "target", "--exclude", "evidence", "--exclude", "seeded", HERE + "/", verif_w + "/"])
+    ct = os.path.join(verif_w, "harness", "Cargo.toml")
+    open(ct, "w").write(open(ct).read().replace("/repo/", repo_w + "/"))
+    m = load_meta(d)
+    patch = os.path.abspath(os.path.join(d, "patch.diff"))
+    rc, out = sh(["git", "-C", repo_w, "apply", patch])
+    if rc != 0:
+        return {"error": "patch does not apply: " + out[-300:]}
+    det = {}
+    for p in props:
+        t0 = time.time()
+        rc, out = sh([os.path.join(verif_w, "check"), "run", p, tier], cwd=verif_w, timeout=7200)
+        sigs = [l.split("signature:")[1].strip() for l in out.splitlines() if "signature:" in l]
+        det[p] = {"exit": rc, "fired": rc == 1 and "VIOLATION property=%s" % p in out, "signatures": sigs[:6], "seconds": round(time.time() - t0, 1),
+                  "inconclusive": [l[:300] for l in out.splitlines() if l.startswith("INCONCLUSIVE")][:3]}
+    sh(["git", "-C", repo_w, "checkout", "--", "."])
+    return det
+
+
+def pdetect(dirs, nworkers, which, tier="quick"):
+    import concurrent.futures
+    import queue
+    sys.path.insert(0, os.path.join(HERE, "tools"))
+    from props_meta import PROPS
+    free = queue.Queue()
+    for w in range(nworkers):
+        free.put(w)
+
+    def job(d):
+        w = free.get()
+        try:
+            m = load_meta(d)
+            if which == "all":
+                props = [m["property"]] + [p for p in sorted(PROPS) if p != m["property"]]
+            else:
+                props = list(dict.fromkeys([m["property"]] + list(m.get("also", []))))
+            det = pdetect_one(w, d, props, tier)
+            if "error" in det:
+                print("%-10s ERROR %s" % (os.path.basename(d.rstrip("/")), det["error"]), flush=True)
+                return
+            m = load_meta(d)
+            m["detection"] = {"at": time.strftime("%Y-%m-%d %H:%M:%S"), "tier": tier, "mode": "scratch copy (seedtool pdetect)",
+                              "verif_commit": subprocess.run(["git", "-C", HERE, "rev-parse", "--short", "HEAD"], stdout=subprocess.PIPE, text=True).stdout.strip() + "+wip",
+                              "checks": det}
+            save_meta(d, m)
+            fired = [p for p, r in det.items() if r["fired"]]
+            inc = [p for p, r in det.items() if r["exit"] == 2]
+            print("%-10s target %s %s; fired: %s%s" % (os.path.basename(d.rstrip("/")), m["property"], "FIRED" if det[m["property"]]["fired"] else "missed",
+                                                      ",".join(fired) or "-", ("; inconclusive: " + ",".join(inc)) if inc else ""), flush=True)
+        finally:
+            free.put(w)
+
+    with concurrent.futures.ThreadPoolExecutor(max_workers=nworkers) as ex:
+        list(ex.map(job, dirs))
+    for w in range(nworkers):
+        wd = _worker_dir(w)
+        sh(["git", "-C", REPO, "worktree", "remove", "--force", os.path.join(wd, "repo")])
+        sh(["rm", "-rf", wd])
+
+
 def table():
     base = os.path.join(HERE, "seeded")
     rows = []
@@ -146,6 +226,17 @@ def main():
     if cmd == "detect":
         for d in sys.argv[2:]:
             detect(d)
+        return 0
+    if cmd == "pdetect":
+        args = sys.argv[2:]
+        nworkers, which = 4, "target"
+        while args and args[0].startswith("--"):
+            if args[0] == "--all":
+                which = "all"
+            elif args[0].startswith("--workers="):
+                nworkers = int(args[0].split("=")[1])
+            args = args[1:]
+        pdetect(args, nworkers, which)
         return 0
     if cmd == "table":
         table()
